@@ -43,7 +43,7 @@ def _quote(doc):
 def _listwrap(doc, m):
     ls = doc.split("\n")[:-1]
     w = len(m)
-    return m + ls[0] + "\n" + "".join((" " * w + l if l else "") + "\n" for l in ls[1:])
+    return m + ls[0] + "\n" + "".join(" " * w + l + "\n" for l in ls[1:])
 
 
 def _refs(env):
@@ -275,12 +275,12 @@ def c10_conservative(state, cfg, doc):
     base = state.get(("c10b", cfg))
     if base is None:
         preset = U.CONFIGS[cfg][0]
+        off = ["table", "strikethrough"]
         base = {
-            "plain": MarkdownIt(preset), "table": MarkdownIt(preset).enable("table"), "strike": MarkdownIt(preset).enable("strikethrough"),
-            "defs": MarkdownIt(preset, {"inline_definitions": True, "store_labels": True}),
+            "plain": MarkdownIt(preset).disable(off, True), "table": MarkdownIt(preset).disable(off, True).enable("table"),
+            "strike": MarkdownIt(preset).disable(off, True).enable("strikethrough"),
+            "defs": MarkdownIt(preset, {"inline_definitions": True, "store_labels": True}).disable(off, True),
         }
-        if preset != "commonmark":
-            base["plain"] = MarkdownIt(preset).disable(["table", "strikethrough"], True)
         state[("c10b", cfg)] = base
     fails = []
     e0: dict = {}
@@ -554,15 +554,17 @@ def c18_options(state, cfg, doc):
     preset, opts, en, dis = U.CONFIGS[cfg]
     key = ("c18", cfg)
     if key not in state:
+        full = {"xhtmlOut": True, "breaks": False, "langPrefix": "language-", "highlight": None}
+
         def mk(extra):
-            m = MarkdownIt(preset, {**opts, **extra})
+            m = MarkdownIt(preset, {**opts, **full, **extra})
             if en:
                 m.enable(en)
             if dis:
                 m.disable(dis)
             return m
         hl = lambda code, lang, attrs: "<b>HL</b>" if lang else ""  # noqa: E731
-        state[key] = {"base": mk({"xhtmlOut": True, "breaks": False, "langPrefix": "language-", "highlight": None}),
+        state[key] = {"base": mk({}),
                       "xhtml": mk({"xhtmlOut": False}), "breaks": mk({"breaks": True}), "lang": mk({"langPrefix": "LP-"}), "hl": mk({"highlight": hl})}
     ms = state[key]
     base = ms["base"]
@@ -803,7 +805,106 @@ def c20_cost(state, cfg, case):
         if c1 > 200 and c2 > 2.6 * c1 * (l2 / (2 * l1)):
             fails.append({"what": f"family {fam}: {l1}->{l2} chars, calls {c1}->{c2} (x{c2 / c1:.2f})", "key": f"C20/growth/{fam}"})
             break
-    if max(per_char) > 400:
-        fails.append({"what": f"family {fam}: {max(per_char):.0f} calls per character", "key": f"C20/per-char/{fam}"})
+    # bounded work per character: the memoised inline scans cost O(maxNesting) per character, nothing may cost more
+    cap = 12 * int(md.options["maxNesting"])
+    if max(per_char) > cap:
+        fails.append({"what": f"family {fam}: {max(per_char):.0f} calls per character (cap 12 x maxNesting = {cap})", "key": f"C20/per-char/{fam}"})
     # nesting cut off
     return {"sig": (fam, round(per_char[-1])), "fail": fails}
+
+
+# ============================================================================ generators of case lists
+def gen_c07(tier):
+    import itertools
+
+    A = [d for d in U.docs_k(2) if d.endswith("\n")]
+    if tier == "quick":
+        B = [l + "\n" for l in U.V if l and l[0] not in " \t"]
+    else:
+        small = [l for l in U.V if l and l[0] not in " \t"]
+        B = [l + "\n" for l in small] + [a + "\n" + b + "\n" for a in small for b in U.V[:40]]
+    for a in A:
+        for b in B:
+            yield (a, b)
+
+
+def gen_c16_refs(tier):
+    defs = ["[a]: /u\n", "[a]: /v 't'\n", "[A]: /w\n", "[b]: <x y> (t)\n", "[a]: /u\n[a]: /z\n", "[ a  b ]: /ab\n", "[ß]: /ss\n", "[c]:\n/m\n'multi\nline'\n",
+            "[d]: /d \"hard\\\nbreak\"\n", "> [q]: /q\n", "- [l]: /l\n", "[e]: /e\nnot a def\n", "", "[ẞ]: /SS\n"]
+    uses = ["[a]\n", "[A] [b]\n", "![a]\n", "[x][a]\n", "[a]: /other\n\n[a]\n", "[a b]\n", "[SS] [ss]\n", "[c] [d]\n", "[q] [l]\n", "[e]\n", "plain\n", "[a]: /u\n\n[a]\n"]
+    for r in defs:
+        for d in uses:
+            yield (r, d)
+    if tier != "quick":
+        for r1 in defs:
+            for r2 in defs:
+                for d in uses[:6]:
+                    yield (r1 + r2, d)
+
+
+def gen_c16_form(tier):
+    texts = ["x", "*e*", "a\\]b", "`c`", "[n]", "a &amp; b", "![i](/s)", "x\ny"]
+    dests = ["/u", "<a b>", "/a(b)c", "/a\\)b", "http://é.x/ü", "/q?a=1&amp;b=2", "<>", "/x%20y", "javascript:x", "/a_b*c*"]
+    titles = ["", "'t'", "\"a \\\" b\"", "(p)", "'multi\nline'", "'&amp; \\*'"]
+    if tier == "quick":
+        dests, titles = dests[:8], titles[:4]
+    for img in (False, True):
+        for t in texts:
+            for d in dests:
+                for ti in titles:
+                    yield (img, t, d, ti)
+
+
+def gen_c16_labels(tier):
+    labs = ["a", "A", "ß", "SS", "ss", "ẞ", "ǆ", "ǅ", "Ǆ", "İ", "i̇", "ſ", "S", "ά", "Ά", "ﬁ", "FI", "a  b", "a b", "A\tB", " a ", "é", "É", "Σ", "σ", "ς", "K", "K", "ǰ", "J̌"]
+    for x in labs:
+        for y in labs:
+            yield (x, y)
+
+
+def gen_c19(tier):
+    quotes = [None, "«»‹›", ["``", "''", "`", "'"], ["", "x", "ab", "abc"], "\"\"''"]
+    k = 2 if tier == "quick" else 3
+    frags = ["a", " ", "\"", "'", "*", "_", "`", "[", "](/u)", "<http://a.b/'c'>", "<http://q/--x...>", "&quot;", "\\\"", "--", "...", "(c)", "+-", "\n", "!", "1", ".", "(tm)", "<b>", "![", ",,", "??"]
+    import itertools
+
+    for q in quotes:
+        for n in range(1, k + 2):
+            if n == k + 1 and tier == "quick":
+                # a sample of longer ones
+                for parts in itertools.islice(itertools.product(frags[:12], repeat=n), 0, 20000, 7):
+                    yield ("".join(parts), q)
+                continue
+            if n == k + 1:
+                break
+            for parts in itertools.product(frags, repeat=n):
+                yield ("".join(parts), q)
+        for d in ['"a" <http://a.b/\'c\'> \'x\'', '[x](/u) <http://q/--x...v1...v2> ...', "*\"a\"* '**b**' \"c'd\"", "\"a `\"c\"` b\"", "\"[a](/u \"t\")\"", "1\"\" 2'", "''a'' \"\"b\"\""]:
+            yield (d, q)
+
+
+def gen_inline_texts(tier):
+    k = 2 if tier == "quick" else 3
+    for d in U.inline_docs(k):
+        if "\n" not in d and d == d.strip() and d:
+            yield d
+
+
+def gen_c08_spans(tier):
+    import itertools
+
+    alpha = [" ", "a", "\n", "\xa0", "\t", " ", "x y", "\x0b"]
+    k = 3 if tier == "quick" else 5
+    for n in range(1, k + 1):
+        for parts in itertools.product(alpha, repeat=n):
+            yield "".join(parts)
+
+
+def gen_c09(tier):
+    yield from c09_texts(2 if tier == "quick" else 3)
+
+
+def gen_c20(tier):
+    L = 1500 if tier == "quick" else 12000
+    for fam in C20_FAMILIES:
+        yield (fam, L)
